@@ -11,6 +11,7 @@ A *domain* object supplies the rule-specific semantics:
   domain.call(interp, call, state, frame)  -> list of Result | None (default)
   domain.truth(value)                      -> 'T' | 'F' | 'TF'
   domain.load_attr(chain, state, frame)    -> value | None (default: state lookup)
+  domain.load_attr_multi(chain, state, frame) -> [Result] | None (optional; an attribute read that splits the state)
   domain.match(handler_type, exc, state)   -> 'yes' | 'no' | 'maybe'
   domain.unknown_call(call, state)         -> list of Result for un-modelled calls
   domain.compare(op, left, right)          -> 'T' | 'F' | 'TF' | None (default rules)
@@ -208,6 +209,7 @@ class Interp:
         self.steps = 0
         self.functions = set()
         self.track_return_sites = False
+        self.round_cache = {}
 
     # ------------------------------------------------------------------ expressions
     def eval(self, e, st, fr):
@@ -229,6 +231,11 @@ class Interp:
         if isinstance(e, ast.Attribute):
             ch = attr_chain(e)
             if ch:
+                multi = getattr(d, "load_attr_multi", None)
+                if multi is not None:
+                    rs = multi(ch, st, fr)
+                    if rs is not None:
+                        return rs
                 v = d.load_attr(ch, st, fr)
                 if v is not None:
                     return [val(v, st)]
@@ -882,6 +889,12 @@ class Interp:
         key = (id(func), entry, tuple(sorted((k, repr(v)) for k, v in argvals.items())))
         if key in self.in_progress:
             return [Result(r.kind, r.value, State(r.state.items | caller_locals, r.state.log)) for r in self.summaries.get(key, [])]
+        cached = self.round_cache.get(key)
+        if cached is not None:
+            # the callee sees only globals + arguments, so its outcomes can be reused within a round;
+            # witness logs continue from the caller's log
+            results, n = cached
+            return [Result(r.kind, r.value, State(r.state.items | caller_locals, st.log + r.state.log[n:])) for r in results]
         self.in_progress.add(key)
         try:
             s0 = entry
@@ -925,6 +938,7 @@ class Interp:
             if old is None or {r.key() for r in old} != {r.key() for r in results}:
                 self.summaries[key] = results
                 self.changed = True
+            self.round_cache[key] = (results, len(entry.log))
             return [Result(r.kind, r.value, State(r.state.items | caller_locals, r.state.log)) for r in results]
         finally:
             self.in_progress.discard(key)
@@ -933,6 +947,7 @@ class Interp:
         """Top-level entry: iterate until callee summaries are stable."""
         for _ in range(max_rounds):
             self.changed = False
+            self.round_cache = {}
             res = self.inline(func, argvals, st, None, receiver=receiver, name=name)
             if not self.changed:
                 return res
